@@ -422,7 +422,13 @@ def fam_embedded(E, real=False):
 
     async def main():
         await (time + start)
-        async with Environment() as env:
+        env0 = Environment()
+        pre = env0.timeout(u, value=value)        # created by set-up code before entering
+        async with env0 as env:
+            def pre_waiter():
+                got = yield pre
+                log('pre', 'fired', got is value)
+            env.process(pre_waiter())
             S['ev'] = env.event()
             S['proc'] = env.process(proc(env))
             env.schedule(native(env))
@@ -448,6 +454,10 @@ def fam_embedded(E, real=False):
                 'activity-receives-event-value-at-trigger-time')
         E.prove(EQ(n2[2], MAX(start + w, fire)) and n2[3] == 'proc-result',
                 'activity-receives-process-return-value')
+    pf = log.first('pre', 'fired')
+    E.prove(pf is not None and EQ(pf[2], start + u) and pf[3] is True,
+            'timeout-created-before-entering-fires-delay-after-entering',
+            ('environment entered at %r, timeout(%r) fired at %r', start, u, pf and pf[2]))
     lf = log.first('m', 'left')
     E.prove(lf is not None, 'environment-block-ends')
 
